@@ -626,6 +626,35 @@ fn fixed_cases(rep: &mut Report, codes: &[String], gates: &Gates) {
             }
         }
     }
+    // valid files that are nested deeply but far below what the tool digests on its main thread
+    // (200 parentheses, 90 IFs, a flat chain of 250 operands: a third of the depth at which the pinned
+    // debug build gives up): a normal exit with agreeing channels, alone and next to other files; and
+    // `echo` / `tokenize` of a file that parses exit 0
+    {
+        let deep: Vec<(&str, String)> = vec![
+            ("deep-parentheses", format!("PROGRAM dp\nVAR\nx : INT;\nEND_VAR\nx := {}1{};\nEND_PROGRAM\n", "(".repeat(200), ")".repeat(200))),
+            ("deep-ifs", format!("PROGRAM di\nVAR\nx : INT;\nEND_VAR\n{}x := 2;\n{}END_PROGRAM\n", "IF x = 1 THEN\n".repeat(90), "END_IF;\n".repeat(90))),
+            ("long-chain", format!("PROGRAM dc\nVAR\nx : INT;\nEND_VAR\nx := {}x;\nEND_PROGRAM\n", "x + ".repeat(250))),
+        ];
+        let faulty = dir.write("faulty.st", b"PROGRAM pf\nVAR\nq : INT;\nEND_VAR\nq := nowhere;\nEND_PROGRAM\n").to_string_lossy().to_string();
+        for (name, text) in &deep {
+            let f = dir.write(&format!("{}.st", name), text.as_bytes()).to_string_lossy().to_string();
+            let leak: &'static str = Box::leak(name.to_string().into_boxed_str());
+            cases.push((leak, vec!["check".into(), f.clone()]));
+            cases.push((Box::leak(format!("{} + good file", name).into_boxed_str()), vec!["check".into(), f.clone(), good.clone()]));
+            cases.push((Box::leak(format!("faulty file + {}", name).into_boxed_str()), vec!["check".into(), faulty.clone(), f.clone()]));
+            for cmd in ["echo", "tokenize"] {
+                let o = run_cli(&[cmd.to_string(), f.clone()], None);
+                if !o.timed_out {
+                    rep.stats.case(true, hash_str(&format!("{} {}", cmd, name)));
+                    rep.stats.class(&format!("fixed.{}-{}", cmd, name));
+                    if o.status != Some(0) {
+                        rep.failures.push((Failure::new("fixed-case", "exit-vs-content", format!("`{} <{}>` exits {:?} although the file parses", cmd, name, o.status), json!({"case": format!("{} {}", cmd, name)})), vec![]));
+                    }
+                }
+            }
+        }
+    }
     if gates.want("CHECK_EMPTY_SET") {
         cases.push(("empty directory", vec!["check".into(), empty.to_string_lossy().to_string()]));
         cases.push(("no arguments", vec!["check".into()]));
